@@ -21,9 +21,11 @@ def run(tier, runner):
     r_w.require(18, 'stores to the size words')
     r_tf.require(20, 'swap2_impl instantiations (ordered flavour pairs)')
     r_cd.require(3, 'constructs in the swap paths')
+    r_xa = ownership.xalloc(sw)
+    r_xa.require(6, 'canSwapDynStorage instantiations (receiver x operand)')
     return {
-        'results': [r_w, r_tf, r_tr, r_cd, r_st, r_sr, r_eo, r_es],
-        'explanation': 'For every ordered pair of flavours / inline capacities / size types / allocators of the matrix (swap2_impl instantiations): '
+        'results': [r_w, r_tf, r_tr, r_cd, r_st, r_sr, r_eo, r_es, r_xa],
+        'explanation': 'XALLOC: the buffer-exchange branch is only live for operands of the same allocator type and size_type - for every other instantiated (receiver, operand) pair canSwapDynStorage folds to the constant false.  For every ordered pair of flavours / inline capacities / size types / allocators of the matrix (swap2_impl instantiations): '
                        'ENC-W - sizes are exchanged only through the encoders or jointly with the capacity; THROW-FIRST - every call that may throw '
                        '(size_type overflow test, capacity adjustment) is sequenced before the first modification of either operand, so an impossible '
                        'exchange throws with both contents intact; THROW-REACH - no noexcept function on the swap2 path can reach a throw (it throws '
